@@ -35,7 +35,10 @@ Mark == /\ Len(marks) < MaxMarks
         /\ marks' = Append(marks, pos)
         /\ UNCHANGED <<doc, pos, off>>
 
-Next == (\E c \in Alphabet : Read(c)) \/ Mark
+\* nothing left to do (keeps TLC's deadlock check quiet)
+Done == Len(doc) = MaxLen /\ Len(marks) = MaxMarks /\ UNCHANGED vars
+
+Next == (\E c \in Alphabet : Read(c)) \/ Mark \/ Done
 
 Spec == Init /\ [][Next]_vars
 
@@ -67,7 +70,7 @@ Rle(s) == IF s = <<>> THEN <<>>
                           /\ (n < Len(s) => s[n + 1] # s[1])
                IN <<<<s[1], n>>>> \o Rle(SubSeq(s, n + 1, Len(s)))
 RunForm == /\ AdvanceRuns(Origin, Rle(doc)) = pos
-           /\ \A c \in Alphabet : \A n \in 0..3 : PosAfter(pos, Repeat(c, n)) = AdvanceRun(pos, <<c, n>>)
+           /\ \A c \in Alphabet : \A n \in 1..3 : PosAfter(pos, Repeat(c, n)) = AdvanceRun(pos, <<c, n>>)
 
 RoundTrip ==
   /\ off \in Boundaries(doc)
